@@ -667,6 +667,9 @@ func (x *Exec) modelInvoke(st *State, fr *Frame, key string, cc *ssa.CallCommon,
 	switch key {
 	case "error.Error":
 		x.use("T-errors")
+		// taint abstraction: the text mentions the host path iff the error is marked as carrying it
+		x.declFmt()
+		st.assume(fmt.Sprintf("(= (strHostPath (errText %s)) (hostPath %s))", recv.Term, recv.Term))
 		return Val{T: tString, Term: fmt.Sprintf("(errText %s)", recv.Term)}, true
 	}
 	return Val{}, false
